@@ -1851,6 +1851,10 @@ func (f *framer) readStringList() []string {
 }
 
 func (f *framer) readBytesInternal() ([]byte, error) {
+	if len(f.buf) < 4 {
+		// rows are decoded in the caller's goroutine (Iter.Scan), report instead of panicking
+		return nil, fmt.Errorf("not enough bytes in buffer to read int require 4 got: %d", len(f.buf))
+	}
 	size := f.readInt()
 	if size < 0 {
 		return nil, nil
